@@ -128,6 +128,65 @@ def rand_ropts(rng, times, core=False, present=None):
     return o
 
 
+def rand_switch_opts(rng, recs):
+    """trace_off on a function called below something that can hold filter state, trace_on on a function entered
+    after that call has returned (both while nested deeper and after the enclosing calls returned), combined with
+    -F / -N / -D / -t / -H / depth= / time= that mostly name the functions open when tracing goes off"""
+    o = ROpts()
+    ents = [(i, r) for i, r in enumerate(recs) if r[0] == "E"]
+    if len(ents) < 3:
+        return rand_ropts(rng, sorted({r[3] for r in recs}), core=True, present={r[2] for r in recs})
+    k = rng.randrange(0, max(1, len(ents) - 1))
+    i_off, r_off = ents[k]
+    # functions open at the moment tracing goes off (these hold the filter state)
+    stack = []
+    for r in recs[:i_off]:
+        if r[0] == "E":
+            stack.append(r[2])
+        else:
+            stack.pop()
+    later = [r for _, r in ents[k + 1:] if r[2] != r_off[2]]
+    shallower = [r for r in later if r[1] <= r_off[1]]
+    pool = shallower if (shallower and rng.random() < 0.7) else later
+    acts_off = [("trace_off", None)]
+    if rng.random() < 0.15:
+        acts_off.append(rng.choice([("filter", None), ("notrace", None), ("depth", rng.randint(0, 2)), ("time", 5)]))
+    o.T = [(r_off[2], acts_off)]
+    if pool:
+        r_on = rng.choice(pool)
+        acts_on = [("trace_on", None)]
+        if rng.random() < 0.15:
+            acts_on.append(rng.choice([("filter", None), ("depth", rng.randint(1, 3)), ("trace", None)]))
+        o.T.append((r_on[2], acts_on))
+    if rng.random() < 0.2:
+        o.trace_off = True
+    holders = stack + [r_off[2]]
+    allf = sorted({r[2] for r in recs})
+    used = {fn for fn, _ in o.T}
+
+    def pick(n):
+        src = holders if (holders and rng.random() < 0.75) else allf
+        return sorted(set(rng.choice(src) for _ in range(n)))
+    kind = rng.random()
+    if kind < 0.45:
+        o.F = pick(rng.randint(1, 2))
+    if 0.3 < kind < 0.6 or rng.random() < 0.15:
+        o.N = [f for f in pick(1) if f not in o.F]
+    if rng.random() < 0.5:
+        o.D = rng.randint(1, max(2, r_off[1] + 2))
+    if rng.random() < 0.25:
+        o.t = rng.choice([1, 5, 10, 20])
+    if rng.random() < 0.15:
+        o.H = [f for f in pick(1)]
+    if rng.random() < 0.2:
+        fn = rng.choice(allf)
+        if fn not in used:
+            o.T.append((fn, [rng.choice([("depth", rng.randint(0, 3)), ("time", rng.choice([1, 10, 30])), ("filter", None),
+                                         ("notrace", None), ("hide", None)])]))
+    o.no_merge = rng.random() < 0.3
+    return o
+
+
 def trig_table(o):
     """fn -> list of model TRIG items (what uftrace_setup_filter & co leave in the rbtree)"""
     trig = {}
@@ -762,6 +821,32 @@ def probe_cases():
     add(nest, r=(1015, 1045))
     add(nest, C=[1])
     add(nest, H=[1], D=2)
+    # tracing switched off inside a function that holds filter state (-F / -N match, -D budget, time= override), that
+    # function returning while tracing is off, tracing switched on again later (seeded/C07-traceoff-exit-skips-restore):
+    # f0 { f1 { f2 { f3 { f4 } } }  f5 { f6 }  f1 { f2 { f3 { f4 } } } }
+    onoff = ("E:0:0:1000 E:1:1:1010 E:2:2:1020 E:3:3:1030 E:4:4:1040 X:4:4:1050 X:3:3:1060 X:2:2:1070 X:1:1:1080 "
+             "E:1:5:1090 E:2:6:1100 X:2:6:1110 X:1:5:1120 "
+             "E:1:1:1130 E:2:2:1140 E:3:3:1150 E:4:4:1160 X:4:4:1170 X:3:3:1180 X:2:2:1190 X:1:1:1200 X:0:0:1210")
+    sw = [(3, [("trace_off", None)]), (5, [("trace_on", None)])]
+    for nm in (False, True):
+        add(onoff, T=sw, F=[1], no_merge=nm)
+        add(onoff, T=sw, D=3, no_merge=nm)
+        add(onoff, T=sw, N=[2], no_merge=nm)
+        add(onoff, T=sw, F=[1], D=2, no_merge=nm)
+        add(onoff, T=sw, F=[0, 2], D=2, no_merge=nm)
+        add(onoff, T=sw, t=25, no_merge=nm)
+        add(onoff, T=sw + [(2, [("time", 1)])], t=500, no_merge=nm)
+        add(onoff, T=sw + [(2, [("depth", 1)])], no_merge=nm)
+        add(onoff, T=sw, H=[2], D=3, no_merge=nm)
+        add(onoff, T=sw, C=[6], no_merge=nm)
+    add(onoff, T=[(5, [("trace_on", None)])], trace_off=True, F=[1])
+    add(onoff, T=[(5, [("trace_on", None)])], trace_off=True, D=2)
+    add(onoff, T=[(5, [("trace_on", None)]), (2, [("trace_off", None)])], trace_off=True, N=[3])
+    add(onoff, T=[(4, [("trace_off", None)]), (6, [("trace_on", None)]), (2, [("trace_off", None)])], F=[5], D=3)
+    add(onoff, T=[(3, [("trace_off", None)]), (4, [("trace_on", None)])], F=[1], D=3)       # off and on again inside one call
+    add(onoff, T=[(1, [("trace_off", None), ("filter", None)]), (6, [("trace_on", None)])])
+    add(onoff, T=[(2, [("trace_off", None), ("notrace", None)]), (5, [("trace_on", None)])], D=4)
+    add(onoff, T=[(3, [("trace_off", None), ("depth", 1)]), (5, [("trace_on", None), ("depth", 1)])], D=4)
     return P
 
 
@@ -780,13 +865,16 @@ def run(ctx):
     cases = probe_cases()
     nprobe = len(cases)
     for i in range(nforest):
-        recs, _ = forest_recs(rng, ctx.tier)
+        full, _ = forest_recs(rng, ctx.tier)
+        recs = full
         if rng.random() < 0.15 and len(recs) > 4:
             recs = recs[:rng.randint(len(recs) // 2, len(recs) - 1)]      # tracing stopped with calls still open
         times = sorted({r[3] for r in recs})
         present = {r[2] for r in recs}
         for k in range(3):
             cases.append({"recs": recs, "opts": rand_ropts(rng, times, core=(k == 0), present=present)})
+        for k in range(2):
+            cases.append({"recs": full, "opts": rand_switch_opts(rng, full), "switch": True})
     for i, c in enumerate(cases):
         c["idx"] = i
     evaluations = disagreements = monitor_fail = replays = 0
